@@ -9,17 +9,28 @@ import CrsProps.C11
 namespace Crs.Props
 open Crs Crs.Update
 
-/-- the rewritten operand line is classified like the old one by the two line tests of the lookup
-    (`id:R` and `SecRule`): true in CRS layout, where neither occurs inside an operand -/
-def KeepsClass (id oldLine newLine : Bytes) : Prop :=
-  contains (b!"id:" ++ id) newLine = contains (b!"id:" ++ id) oldLine ∧
+/-- the rewritten operand line is classified like the old one by the `SecRule` test that counts chained rules: true
+    whenever the keyword `SecRule` stands on the operand line itself (the usual layout), whatever the regex contains.
+    (The other test of the lookup, `id:R`, needs no such condition any more: text inside an operand is not an id —
+    repaired defect D27.) -/
+def KeepsClass (oldLine newLine : Bytes) : Prop :=
   contains secRule newLine = contains secRule oldLine
+
+/-- an operand line is never the id line, before and after the operand is replaced -/
+theorem isIdLine_operand_line (id line pre old post r : Bytes) (h : splitOperand line = some (pre, old, post)) :
+    isIdLine id (pre ++ r ++ post) = isIdLine id (pre ++ old ++ post) := by
+  obtain ⟨hl, _, _⟩ := splitOperand_shape line pre old post h
+  have h1 := splitOperand_rebuild line pre old post r h
+  have h2 : splitOperand (pre ++ old ++ post) = some (pre, old, post) := by rw [← hl]; exact h
+  unfold isIdLine
+  rw [h1, h2]
+  simp
 
 /-- **C12 (round trip).** After a successful update with a one-line regex `r`, reading the operand of the
     same rule gives `r` back byte for byte — whatever `r` contains (quotes, `"@rx `, `" \`) — provided
     the rewritten line is still classified like before (`KeepsClass`). -/
 theorem C12_roundtrip (c id : Bytes) (k : Nat) (r c' : Bytes) (h : updateRegex c id k r = .ok c') (hr : '\n' ∉ r)
-    (hk : ∀ (i : Nat) (pre old post : Bytes), (splitNl c)[i]? = some (pre ++ old ++ post) → KeepsClass id (pre ++ old ++ post) (pre ++ r ++ post)) :
+    (hk : ∀ (i : Nat) (pre old post : Bytes), (splitNl c)[i]? = some (pre ++ old ++ post) → KeepsClass (pre ++ old ++ post) (pre ++ r ++ post)) :
     readCurrentRegex c' id k = .ok r := by
   -- unfold the update
   have h0 := h
@@ -57,7 +68,8 @@ theorem C12_roundtrip (c id : Bytes) (k : Nat) (r c' : Bytes) (h : updateRegex c
               · exact hr hm
               · exact hno (Or.inr hm)
             · exact splitNl_lines_noNl c l hl'
-        obtain ⟨hk1, hk2⟩ := hk i pre old post hline'
+        have hk2 := hk i pre old post hline'
+        have hk1 := isIdLine_operand_line id line pre old post r hop
         unfold readCurrentRegex
         simp only
         rw [hlines, targetIndex_setAt id k 0 (splitNl c) i _ _ hline' hk1 hk2, hi]
@@ -71,7 +83,7 @@ theorem C12_roundtrip (c id : Bytes) (k : Nat) (r c' : Bytes) (h : updateRegex c
 
 /-- **C12 (second update is a no-op).** -/
 theorem C12_second_update_noop (c id : Bytes) (k : Nat) (r c' : Bytes) (h : updateRegex c id k r = .ok c') (hr : '\n' ∉ r)
-    (hk : ∀ (i : Nat) (pre old post : Bytes), (splitNl c)[i]? = some (pre ++ old ++ post) → KeepsClass id (pre ++ old ++ post) (pre ++ r ++ post)) :
+    (hk : ∀ (i : Nat) (pre old post : Bytes), (splitNl c)[i]? = some (pre ++ old ++ post) → KeepsClass (pre ++ old ++ post) (pre ++ r ++ post)) :
     updateRegex c' id k r = .ok c' := by
   have h0 := h
   unfold updateRegex at h
@@ -106,7 +118,8 @@ theorem C12_second_update_noop (c id : Bytes) (k : Nat) (r c' : Bytes) (h : upda
               · exact hr hm
               · exact hno (Or.inr hm)
             · exact splitNl_lines_noNl c l hl'
-        obtain ⟨hk1, hk2⟩ := hk i pre old post hline'
+        have hk2 := hk i pre old post hline'
+        have hk1 := isIdLine_operand_line id line pre old post r hop
         have hlt : i < (splitNl c).length := (List.getElem?_eq_some_iff.mp hline').1
         unfold updateRegex
         simp only
@@ -127,7 +140,7 @@ theorem C12_compare_iff (generated current : Bytes) : compareRegex generated cur
 
 /-- update followed by compare: the rule is reported as unchanged -/
 theorem C12_update_then_compare (c id : Bytes) (k : Nat) (r c' : Bytes) (h : updateRegex c id k r = .ok c') (hr : '\n' ∉ r)
-    (hk : ∀ (i : Nat) (pre old post : Bytes), (splitNl c)[i]? = some (pre ++ old ++ post) → KeepsClass id (pre ++ old ++ post) (pre ++ r ++ post)) :
+    (hk : ∀ (i : Nat) (pre old post : Bytes), (splitNl c)[i]? = some (pre ++ old ++ post) → KeepsClass (pre ++ old ++ post) (pre ++ r ++ post)) :
     ∃ cur, readCurrentRegex c' id k = .ok cur ∧ compareRegex r cur = true :=
   ⟨r, C12_roundtrip c id k r c' h hr hk, by simp [compareRegex]⟩
 
